@@ -1,11 +1,48 @@
 import PycsepVerif.Proto
 import PycsepVerif.Model.PoissonLL
+import PycsepVerif.Model.PoissonTest
 /-! driver ops of C05 (Float instance of Model/PoissonLL). Floats travel as IEEE-754 bit patterns.
     `c05_stat <0|1> <rates> <counts>`, `c05_test <L|CL|S|M> <data rows ;-separated> <count rows>`,
     `c05_sim <L|CL|S|M> <data rows> <simulated counts (1-D)>`, `c05_marg <data rows>`, `c05_cells <data rows> <count rows>` (poisson_spatial_likelihood, list of bit patterns),
     `c05_mode <mode> <data rows> <count rows> <simulated count arrays ;-separated or ->` (observed then every simulated); answers: bits or `ninf`. -/
 namespace Drive.C05
 open Proto PoissonLL
+
+/-- the exact rational value of a finite binary64 given by its bit pattern (the embedding `toQ` of the chained model) -/
+def ratOfBits (b : Nat) : Rat :=
+  let e : Nat := (b / 2 ^ 52) % 2048
+  let m : Nat := b % 2 ^ 52
+  let full : Nat := 2 ^ 52 + m
+  let mag : Rat :=
+    if e = 0 then mkRat (Int.ofNat m) (2 ^ 1074)
+    else if e ≥ 1075 then ((full * 2 ^ (e - 1075) : Nat) : Rat)
+    else mkRat (Int.ofNat full) (2 ^ (1075 - e))
+  if b / 2 ^ 63 = 1 then -mag else mag
+
+def floatToRat (x : Float) : Rat := ratOfBits x.toBits.toNat
+
+def parseBitsRat? (s : String) : Option Rat := s.toNat?.map ratOfBits
+
+/-- rows of injected numbers; `-` with `nsim > 0` means `nsim` empty rows (catalogs of zero events) -/
+def parseRows? (nsim : Nat) (s : String) : Option (List (List Rat)) :=
+  (parseList2? parseBitsRat? s).map (fun rows => if rows.isEmpty then List.replicate nsim [] else rows)
+
+def showResult : Option (PoissonTest.Result Float) → String
+  | none => "exception"
+  | some r =>
+    let stats := " ".intercalate (([r.obsLL] ++ r.simLL).map (fun v => match v with
+      | .negInf => "ninf" | .fin x => showFloat x))
+    let arrs := if r.sims.isEmpty then "-" else ";".intercalate (r.sims.map (showList toString))
+    s!"{stats}|{arrs}|{showPair r.quantile}"
+
+/-- `c:b` with `-1` for none -/
+def parseEv? (s : String) : Option Gridding.Ev :=
+  match s.splitOn ":" with
+  | [c, b] => do
+      let ci ← c.toInt?
+      let bi ← b.toInt?
+      some ⟨if ci < 0 then none else some ci.toNat, if bi < 0 then none else some bi.toNat⟩
+  | _ => none
 
 def showELL : ELL Float → String
   | .negInf => "ninf"
@@ -39,5 +76,33 @@ def handle : List String → Option String
   | ["c05_marg", d] => some (match parseList2? parseFloat? d with
       | some d => showList showFloat (spatialMarginal d) ++ " " ++ showList showFloat (magMarginal d)
       | none => "bad-op")
+  -- c05_run <use_observed_counts 0|1> <normalize_likelihood 0|1> <rates (bits)> <observed counts> <poisson draws|-> <nsim>
+  --         <rows of random numbers (bits), ;-separated> : the whole `_poisson_likelihood_test`
+  | ["c05_run", u, n, rs, cs, ds, k, rows] =>
+      some (match parseList? parseFloat? rs, parseList? parseNat? cs, parseList? parseNat? ds, k.toNat? with
+      | some rs, some cs, some ds, some k =>
+        (match parseRows? k rows with
+         | some rows => if rs.length ≠ cs.length then "bad-op" else
+             showResult (PoissonTest.run floatToRat (u == "1") (n == "1") rs cs ds rows)
+         | none => "bad-op")
+      | _, _, _, _ => "bad-op")
+  -- c05_public <L|CL|S|M> <nbin> <data rows (bits)> <events c:b,…> <poisson draws|-> <nsim> <rows> : a public test on a
+  --         catalog given by its events' (cell, magnitude bin) lookups
+  | ["c05_public", m, nb, d, evs, ds, k, rows] =>
+      some (match parseMode? m, nb.toNat?, parseList2? parseFloat? d, parseList? parseEv? evs, parseList? parseNat? ds,
+                  k.toNat? with
+      | some m, some nb, some d, some evs, some ds, some k =>
+        (match parseRows? k rows with
+         | some rows => (match PoissonTest.publicTest floatToRat m d nb evs ds rows with
+             | .error .outside => "error-outside"
+             | .error .belowMin => "error-below-min"
+             | .ok r => showResult r)
+         | none => "bad-op")
+      | _, _, _, _, _, _ => "bad-op")
+  -- c05_pll <rates (bits)> <counts> : poisson_log_likelihood entry by entry
+  | ["c05_pll", rs, cs] => some (match parseList? parseFloat? rs, parseList? parseNat? cs with
+      | some rs, some cs => if rs.length ≠ cs.length then "bad-op" else
+          showList showELL ((rs.zip cs).map (fun p => PoissonTest.poissonLogLikelihood (α := Float) p.1 p.2))
+      | _, _ => "bad-op")
   | _ => none
 end Drive.C05
